@@ -140,3 +140,111 @@ package transport
 //@   trusted
 //@   modifies nothing
 //@   ensures t != nil && fresh(t)
+
+// ---- reuse_transport.go: one-at-a-time connections (C06) and orderly close (C18) ------------------------
+// Typestate of a reusableConn under its mutex: serving (owned by exactly one exchange) or idle; closed is final.
+//@ func debugLogTransportConnOpen(c logConn, logger *zerolog.Logger)
+//@   trusted
+//@   modifies nothing
+//@ func debugLogTransportConnClosed(c logConn, logger *zerolog.Logger, cause error)
+//@   trusted
+//@   modifies nothing
+
+// exitIdle: idle -> serving (never hands out a connection that is already being served: that is a panic)
+//@ func (c *reusableConn) exitIdle() (closed bool)
+//@   props C06
+//@   requires c != nil && c.c != nil && c.idleTimer != nil
+//@   requires [C06:not-already-serving] c.closed || !c.serving
+//@   modifies c.serving
+//@   ensures [C06:closed-is-reported] old(c.closed) ==> closed && c.serving == old(c.serving)
+//@   ensures [C06:now-serving] !old(c.closed) ==> c.serving
+
+// enterIdle: serving -> idle
+//@ func (c *reusableConn) enterIdle()
+//@   props C06
+//@   requires c != nil && c.idleTimer != nil
+//@   requires [C06:was-serving] c.serving
+//@   modifies c.serving
+//@   ensures !c.serving
+
+// closeIfIdle (idle timer): never closes a connection that is serving a query
+//@ func (c *reusableConn) closeIfIdle()
+//@   props C06
+//@   requires c != nil && c.c != nil
+//@   ghost nClose int = 0
+//@   oncall Close?: nClose = nClose + 1
+//@   modifies c.closed
+//@   ensures [C06:serving-conn-not-reaped] old(c.serving) ==> c.closed == old(c.closed) && nClose == 0
+//@   ensures [C06:idle-conn-closed] !old(c.serving) ==> c.closed && nClose == 1
+
+// close: idempotent; the socket is closed exactly once over the connection's life
+//@ func (c *reusableConn) close()
+//@   props C06 C18
+//@   requires c != nil && c.c != nil && c.idleTimer != nil
+//@   ghost nClose int = 0
+//@   oncall Close?: nClose = nClose + 1
+//@   modifies c.closed
+//@   ensures [C18:closed-afterwards] c.closed
+//@   ensures [C18:socket-closed-once] nClose == (old(c.closed) ? 0 : 1)
+
+// releaseConn: a connection whose exchange failed is closed and never offered again; one whose reply was
+// consumed without error becomes idle and is offered for reuse (or closed when the transport has been closed).
+//@ func (t *ReuseConnTransport) releaseConn(rc *reusableConn, err error)
+//@   props C06 C18
+//@   requires t != nil && rc != nil && rc.c != nil && rc.idleTimer != nil && t.idleConns != nil && t.conns != nil && !sameObj(t.idleConns, t.conns) && rc.serving && t.logger != nil
+//@   ghost nClose int = 0
+//@   ghost nIdle int = 0
+//@   oncall close?: nClose = nClose + 1
+//@   oncall enterIdle?: nIdle = nIdle + 1
+//@   modifies rc.serving, rc.closed, obj(t.idleConns), obj(t.conns)
+//@   ensures [C06:failed-conn-closed-not-reused] err != nil ==> nClose == 1 && nIdle == 0 && has(t.idleConns, rc) == old(has(t.idleConns, rc))
+//@   ensures [C06:clean-conn-offered] err == nil && !t.closed ==> nIdle == 1 && nClose == 0 && has(t.idleConns, rc)
+//@   ensures [C18:nothing-kept-after-close] err == nil && t.closed ==> nClose == 1 && has(t.idleConns, rc) == old(has(t.idleConns, rc))
+//@   ensures [C18:failed-conn-forgotten] err != nil && !t.closed ==> !has(t.conns, rc)
+
+// Monitor invariant of ReuseConnTransport.m: every connection offered for reuse is idle (not serving).
+//@ spec func rtInv(t *ReuseConnTransport) bool = t.idleConns != nil && t.conns != nil && !sameObj(t.idleConns, t.conns)
+//@        && forallkey(k, t.idleConns, has(t.idleConns, k) ==> k != nil && k.c != nil && k.idleTimer != nil && !k.serving)
+
+// getIdleConn: the connection handed out leaves the idle set and becomes serving before anyone else can see it
+// (one critical section), so it has exactly one user; a closed transport hands out nothing.
+//@ func (t *ReuseConnTransport) getIdleConn() (c *reusableConn, err error)
+//@   props C06 C18
+//@   requires t != nil && rtInv(t)
+//@   ghost nAcq int = 0
+//@   oncall Lock: nAcq = nAcq + 1
+//@   modifies obj(t.idleConns), obj(t.conns), field(transport.reusableConn.serving)
+//@   ensures rtInv(t)
+//@   ensures [C06:one-critical-section] nAcq == 1
+//@   ensures [C18:closed-transport-hands-out-nothing] t.closed ==> c == nil && err == ErrClosedTransport
+//@   ensures [C06:exclusive-owner] c != nil ==> err == nil && c.serving && old(has(t.idleConns, c)) && !has(t.idleConns, c)
+//@   loop 1:
+//@     modifies obj(t.idleConns), obj(t.conns), field(transport.reusableConn.serving)
+//@     invariant rtInv(t)
+//@     invariant forallkey(k, t.idleConns, has(t.idleConns, k) ==> loopOld(has(t.idleConns, k)))
+
+//@ func newReusableConn(c net.Conn, idleTimeout time.Duration) (rc *reusableConn)
+//@   props C06
+//@   requires c != nil
+//@   modifies nothing
+//@   ensures rc != nil && fresh(rc) && rc.c == c && rc.idleTimer != nil && !rc.serving && !rc.closed
+//@ func (t *ReuseConnTransport) dialTimeout() (d time.Duration)
+//@   trusted
+//@   modifies nothing
+
+// The dial goroutine: a connection whose dial succeeded is either registered with the transport (so Close
+// will close it) or closed on the spot when the transport was closed meanwhile - never dropped.
+//@ closure ReuseConnTransport.asyncDial$1
+//@   props C18 C06
+//@   requires t != nil && t.conns != nil && t.idleConns != nil && !sameObj(t.idleConns, t.conns) && t.logger != nil && t.ctx != nil && callCtx != nil && t.opts.DialContext != nil
+//@   ghost gc net.Conn = nil
+//@   ghost grc *reusableConn = nil
+//@   ghost nClose int = 0
+//@   ghost nRel int = 0
+//@   dyncall DialContext: modifies nothing
+//@   aftercall newReusableConn?: grc = ret0
+//@   oncall close?: nClose = nClose + 1
+//@   oncall releaseConn?: nRel = nRel + 1
+//@   modifies *
+//@   ensures [C18:dialled-conn-registered-or-closed] grc != nil ==> nClose == 1 || (nRel == 0 && has(t.conns, grc)) || nRel == 1
+//@   callsite close?: [C18:closes-the-dialled-conn] arg0 == grc
